@@ -31,6 +31,10 @@ CLAIMED = {
          "who-may-call + provenance of header fields + path-sensitive must-pass-through + field coverage of Equals methods"),
  "C13": ("three structural clauses: the validator list borrowed from the shared per-height cache is never mutated by a borrower; threshold/total power have a single writer; past committees are read through a read-only view at the asked height and FSM caches have a fixed writer set",
          "alias/taint analysis of borrowed storage (SSA, closures followed) + who-may-write + provenance"),
+ "C03": ("determinism lint over the call-graph closure of ApplyBlock/NewCertificateResults/Root/Commit/SetHash/Hash: every map iteration is order-insensitive, clock values reach only observability sinks, other non-deterministic sources and process-wide mutable state are frozen reasoned tables, goroutines are joined before their results are used, speculative state and caches are reset on every entry/exit",
+         "call-graph reachability + loop-body classification + taint over SSA def-use + path-sensitive join analysis + field coverage"),
+ "C08": ("structural part only: operations are sorted by tree key before every tree commit, synthetic borders are removed on every exit, subtree workers are joined before merge, the tree object and its node cache never outlive a block and are dropped wholesale after workers wrote behind them",
+         "loop-body classification + path-sensitive pairing/join analysis + who-may-write"),
 }
 
 NOT_APPLICABLE = {
